@@ -172,6 +172,33 @@ def u_set_returncode(c):
         c.oblige("post/no-callback-no-call", calls == [])
 
 
+@unit("C42", "Subprocess._set_returncode.every-status", [(M, "Subprocess._set_returncode")],
+      bounded="finite case analysis: every wait status the OS can report - 256 exit codes, and termination by each signal number 1..64 (named or not, real-time ones included) with and "
+              "without the core-dump flag - decoded with the real os.W* macros")
+def u_set_returncode_all(c):
+    """the symbolic unit leaves the W* macros uninterpreted; this one runs the real ones over the whole finite domain: the exit callback gets minus the signal number for ANY
+    terminating signal and the exit code otherwise, once"""
+    import os
+    import tornado.process as P
+    kind = c.choose("kind", ["exited", "signalled", "signalled-core-dumped"])
+    hi = c.choose("high", list(range(16)))
+    lo = c.choose("low", list(range(16)))
+    n = hi * 16 + lo
+    if kind != "exited":
+        n = n % 64 + 1
+        if n == 0x7f:
+            n = 1
+    status = (n << 8) if kind == "exited" else (n | (0x80 if kind.endswith("dumped") else 0))
+    calls = []
+    sub = mk_sub(P, PIDS[0], lambda ret: calls.append(ret))
+    out = c.call(c.fn(M, "Subprocess._set_returncode"), sub, status)
+    c.only_raises(out, ())
+    want = n if kind == "exited" else -n
+    c.values = {"status": status, "returncode": sub.returncode}
+    c.oblige("post/returncode-is-minus-signal-or-exit-status", out.returned and sub.returncode == want and sub.proc.returncode == want)
+    c.oblige("post/callback-ran-exactly-once-with-it", calls == [want] and sub._exit_callback is None)
+
+
 def _waiting_table(c, P, present):
     subs = {pid: mk_sub(P, pid, lambda ret: None) for pid in present}
     return subs
@@ -250,10 +277,12 @@ def u_set_exit_callback(c):
         sub._exit_callback = lambda ret: None
         waiting[pid] = sub
     inits = []
+    # the SIGCHLD handler may have been installed long ago (an earlier Subprocess): a child that exited since then has had its SIGCHLD handled - and ignored, it was not registered
+    already = c.choose("sigchld-handler-installed-earlier", [False, True])
 
     def cb(ret):
         pass
-    with c.patched((P, "os", osx), (P.Subprocess, "_waiting", waiting),
+    with c.patched((P, "os", osx), (P.Subprocess, "_waiting", waiting), (P.Subprocess, "_initialized", already),
                    (P.Subprocess, "initialize", classmethod(lambda cls: inits.append(1)))):
         out = c.call(c.fn(M, "Subprocess.set_exit_callback"), sub, cb)
     c.only_raises(out, ())
@@ -261,7 +290,7 @@ def u_set_exit_callback(c):
         return
     reaped = getattr(osx, "reaped", {})
     c.oblige("post/callback-stored", sub._exit_callback is cb)
-    c.oblige("post/sigchld-handling-initialised", len(inits) >= 1)
+    c.oblige("post/sigchld-handling-initialised", len(inits) >= 1 or already)
     sched = sub.io_loop.callbacks
     reports = [x for x in sched if getattr(x[0], "__name__", "") == "_set_returncode"]
     polls_later = [x for x in sched if getattr(x[0], "__name__", "") in ("_try_cleanup_process", "_cleanup")]
